@@ -58,6 +58,33 @@ def lib_frame(tb) -> bool:
     return False
 
 
+class CaseLog:
+    """Append-only log of the most recent cases, so that the parent can replay them when the
+    worker process is killed by the code under test (out-of-bounds write in a compiled kernel)."""
+
+    def __init__(self, path):
+        self.path = path
+        self.n = 0
+        self.recent = []
+        if path:
+            open(path, "w").close()
+
+    def add(self, sub, case):
+        if not self.path:
+            return
+        line = canon({"subcheck": sub, "case": case})
+        self.recent.append(line)
+        if len(self.recent) > 12:
+            self.recent = self.recent[-12:]
+        self.n += 1
+        if self.n % 64 == 0:
+            with open(self.path, "w") as fp:
+                fp.write("\n".join(self.recent) + "\n")
+        else:
+            with open(self.path, "a") as fp:
+                fp.write(line + "\n")
+
+
 class Stats:
     def __init__(self):
         self.evaluations = 0
@@ -103,10 +130,13 @@ def run_shard(mod, sc, tier, shard, nshards, verif_seed, max_examples_override=N
     violations = []
     error = None
 
+    caselog = CaseLog(os.environ.get("VERIF_CASELOG"))
+
     def run_one(case):
         if time.time() - t0 > budget:
             stats.budget_hit = True
             return
+        caselog.add(sc.name, case)
         for e in known:
             p = preds.get(e.get("predicate"))
             if p is not None and p(case):
@@ -240,6 +270,19 @@ def main(argv=None):
         err = None
         try:
             for path in a.replay:
+                if path.endswith(".jsonl"):
+                    # crash log: a sequence of cases run in order in this one process
+                    with open(path) as fp:
+                        docs = [json.loads(l) for l in fp if l.strip()]
+                    docs = docs[-12:]
+                    fail = None
+                    for i, doc in enumerate(docs):
+                        dump_json({"replays": res, "error": None, "progress": [path, i]}, a.out)
+                        fail = replay_case(mod, doc["subcheck"], doc["case"], a.tier)
+                        if fail:
+                            break
+                    res.append({"path": path, "subcheck": docs[-1]["subcheck"] if docs else "?", "failure": fail})
+                    continue
                 with open(path) as fp:
                     doc = json.load(fp)
                 r = replay_case(mod, doc["subcheck"], doc["case"], a.tier)
